@@ -558,9 +558,77 @@ def gen_list_regions(seed, big):
     return out
 
 
+def gen_pairing(seed, big):
+    """C10: tags pair by name with stack discipline. Reference: the plain stack machine of the property statement
+    (closing tag closes the innermost open element of that name; elements opened after it are demoted to text and their
+    children hoisted; stray closers and never-closed openers are text). All sequences up to length 5 (6 in the thorough
+    tier) over {open a, open b, close a, close b, close of unknown name, text}, plus random longer ones."""
+    import itertools
+    rnd = random.Random(seed + 10)
+    alphabet = ['<a>', '<b>', '</a>', '</b>', '</z>', 'T']
+    def ref(pieces):
+        # pieces: list of (start_offset, text)
+        base, st = [], []          # st: list of [start, name, kids]
+        def push(x):
+            (st[-1][2] if st else base).extend(x)
+        def demote():
+            f = st.pop(); push([f[0]] + f[2])
+        for off, tx in pieces:
+            if not tx.startswith('<'):
+                push([off]); continue
+            name = tx[1:-1]
+            if name.startswith('/'):
+                pair = name.lstrip('/')
+                d = max([i for i, f in enumerate(st) if f[1] == pair], default=-1)
+                if d < 0:
+                    push([off]); continue
+                while len(st) - 1 > d:
+                    demote()
+                f = st.pop(); push([[f[0], off, f[2]]])
+            else:
+                st.append([off, name, []])
+        while st:
+            demote()
+        return base
+    seqs = []
+    for n in range(1, (7 if big else 6)):
+        for tup in itertools.product(alphabet, repeat=n):
+            if any(tup[i] == 'T' and tup[i + 1] == 'T' for i in range(n - 1)):
+                continue
+            seqs.append(tup)
+    if not big:
+        rnd.shuffle(seqs); seqs = seqs[:2500]
+    long_alpha = alphabet + ['<a x="1">', '<c>', '</c>', '<//a>']
+    for _ in range(600 if big else 200):
+        n = rnd.randint(6, 14)
+        tup = []
+        for _ in range(n):
+            c = rnd.choice(long_alpha)
+            if c == 'T' and tup and tup[-1] == 'T':
+                continue
+            tup.append(c)
+        seqs.append(tuple(tup))
+    out = []
+    for tup in seqs:
+        pieces, off = [], 0
+        for k, c in enumerate(tup):
+            tx = f't{k} ' if c == 'T' else c
+            pieces.append((off, tx)); off += len(tx)
+        src = ''.join(tx for _, tx in pieces)
+        want = ref([(o, (tx.split(' ')[0] + '>') if tx.startswith('<') and ' ' in tx else tx) for o, tx in pieces])
+        def oracle(r, want=want, src=src):
+            if not r.get('ok'):
+                return 'parse panicked: ' + str(r.get('panic'))[:160]
+            if r['output'] != want:
+                return f'parse tree of {src!r} is {r["output"]}, the stack rule gives {want}'
+            return None
+        out.append((dict(mode='parse', source=src, ds='<', de='>'), oracle))
+    return out
+
+
 GENERATORS = {
     'C01': [gen_totality], 'C04': [gen_identity, gen_identity_unwrappable], 'C07': [gen_partition], 'C08': [gen_recognition], 'C05': [gen_expiry], 'C06': [gen_marker],
-    'C09': [gen_grammar], 'C02': [gen_blocks, gen_inline], 'C03': [gen_blocks, gen_inline], 'C11': [gen_blocks], 'C17': [gen_list_all],
+    'C09': [gen_grammar], 'C10': [gen_pairing], 'C02': [gen_blocks, gen_inline], 'C03': [gen_blocks, gen_inline], 'C11': [gen_blocks], 'C17': [gen_list_all],
     'C12': [gen_dedent], 'C13': [gen_blanklines, gen_lines_intact], 'C14': [gen_inline], 'C15': [gen_list_regions],
 }
 
